@@ -96,6 +96,8 @@ def check(name, tier="quick", props=None):
             rc, out = sh("./check %s %s" % (pid, tier), V, timeout=7200, env=env)
             viol = [l for l in out.split("\n") if l.startswith("VIOLATION")]
             kind = "missed"
+            if rc not in (0, 1) or "Traceback (most recent call last)" in out:
+                kind = "check-error"
             if viol:
                 kind = "caught-no-failing-input" if "no-failing-input-found" in viol[0] else "caught-with-failing-input"
             first = [l for l in out.split("\n") if l.startswith(("failing-input", "divergence", "proof gate", "infra"))][:2]
